@@ -136,12 +136,13 @@ Proof.
   cbv [gen_calculate_time_slot QA T add sub mul div ofZ leb ltb fst snd].
   change (inject_Z 60) with 60. change (inject_Z 2) with 2.
   rewrite ?inject_Z_plus. change (inject_Z 1) with 1.
-  generalize (im * 60 / inject_Z n). intro size.
-  assert (Hhalf : size / 2 == size * (1 # 2)) by (field; lra).
-  split; [lra|].
+  (* every division becomes a product with an inverse; 1/n is an opaque atom, so the remaining
+     goals are linear over the monomials i*im*(1/n), im*(1/n), mm — whatever the spelling *)
+  unfold Qdiv. change (/ 2) with (1 # 2).
+  generalize (/ inject_Z n). intro k.
   destruct (Qle_bool _ _) eqn:E; cbn [fst snd].
-  - right. apply Qle_bool_iff in E. split; lra.
-  - left. apply Qle_bool_false in E. split; lra.
+  - apply Qle_bool_iff in E. split; [lra|]. right. split; lra.
+  - apply Qle_bool_false in E. split; [lra|]. left. split; lra.
 Qed.
 
 (* consequences used below *)
